@@ -131,7 +131,14 @@ func (db *DB) put(tx *bbolt.Tx, obj *object.Object, nestingLevel int, currEpoch 
 	case exists:
 		return diff, nil
 	case errors.As(err, &apistatus.ObjectNotFound{}):
-		// OK, we're putting here.
+		// OK, we're putting here, unless the object is already indexed and merely
+		// reported as not found because it (or its parent) is marked as garbage:
+		// indexing it again would count it twice.
+		if metaBkt != nil {
+			if _, typErr := fetchTypeForID(metaBkt.Cursor(), obj.GetID()); typErr == nil {
+				return diff, nil
+			}
+		}
 	case err != nil:
 		return diff, err // return any other errors
 	}
